@@ -282,6 +282,11 @@ def gen_target_spec(rng, form, tree):
                 spec.append({"k": d, "t": "lazy", "tree": {}})   # a directory object with the listing []
             else:
                 spec.append({"k": d, "t": "d"})
+        hashed = rng.random() < 0.4
+        if hashed and not lazy_roots:    # (with lazy roots below, the listing is not in the spec: keep those hash-less)
+            for e in spec:
+                if e["t"] == "d" and e["k"]:
+                    e["hashed"] = True
     return spec
 
 
@@ -418,8 +423,16 @@ def build_target(case, root, odb):
             new[k] = DataIndexEntry(key=k, meta=Meta(isexec=e["x"]), hash_info=hi)
             mt.append((mk, ("f", e["x"], e["c"])))
         elif e["t"] == "d":
-            new[k] = DataIndexEntry(key=k, meta=Meta(isdir=True), loaded=True)
-            mt.append((mk, ("d", None)))
+            hi = None
+            if e.get("hashed"):
+                # the real .dir hash of the listing below it, as index.save() would record it (object planted)
+                below = sorted((x["k"][len(e["k"]) + 1:], impl.md5hex(x["c"].encode())) for x in case["spec"]
+                               if x["t"] == "f" and x["c"] is not None and x["k"].startswith(e["k"] + "/"))
+                doid = impl.dir_oid(below)
+                _plant_once(odb, doid, impl.canon_listing(below))
+                hi = HashInfo(hname, doid, obj_name=label(k))
+            new[k] = DataIndexEntry(key=k, meta=Meta(isdir=True), hash_info=hi, loaded=True)
+            mt.append((mk, ("d", "h" + e["k"] if hi else None)))
         else:
             lst = []
             for rel, c in e["tree"].items():
@@ -506,6 +519,14 @@ def run_real(ctx, case):
         # hashes added to an index (the only form that keeps broken links: md5() drops them)
         if case.get("old_index", "entries") == "md5build":
             return imd5(ibuild(wsdir, localfs))
+        if case.get("old_index") == "md5build+save":
+            # build -> md5 -> save (into a scratch store, not the target's cache): the DIRECTORY entries of the old
+            # index carry their .dir hashes too - a hash that covers neither exec bits nor empty sub-directories
+            from dvc_data.index import save as isave
+
+            ix = imd5(ibuild(wsdir, localfs))
+            isave(ix, odb=impl.make_odb("local", os.path.join(root, "cache_old")))
+            return ix
         ix = DataIndex()
         ix.storage_map.add_data(FileStorage(key=(), fs=localfs, path=wsdir))
         for entry in build_entries(wsdir, localfs, compute_hash=True, hash_name=case.get("hash_name", "md5")):
@@ -918,6 +939,20 @@ def scripted():
         ({}, {"d/we\\ird.txt": A, "d/s p": B, "d/.h/\u00e9": A}),       # backslash, space, leading dot, non-ASCII
         ({"d/we\\ird.txt": A, "d/we/ird.txt": B}, {"d/we\\ird.txt": A}),
     ]
+    same_listing = [
+        ({"d/a": ("A", False), "d/s/b": B, "k": A}, {"d/a": ("A", True), "d/s/b": B, "d/e": None, "k": A}),
+        ({"d/a": ("A", True), "d/s/b": ("B", False)}, {"d/a": ("A", True), "d/s/b": ("B", True), "d/s/e/f": None}),
+    ]
+    for prior, target in same_listing:   # identical .dir hashes on both sides; only exec bits / empty dirs differ
+        for form in ("build", "mixed"):
+            for link in ("copy", "hardlink", "symlink"):
+                for oi in ("md5build+save", "entries"):
+                    c = {"prior": prior, "target_tree": target, "form": form, "delete": True, "link": link,
+                         "cls": "local", "old_index": oi}
+                    if form == "mixed":
+                        c["spec"] = [{"k": f, "t": "f", "x": x, "c": cc} for f, (cc, x) in files_of(target).items()]
+                        c["spec"] += [{"k": d, "t": "d", "hashed": True} for d in sorted(dirs_of(target))]
+                    out.append(c)
     for prior, target in pairs:
         for form in ("build", "lazy-root", "mixed"):
             for link in ("copy", "hardlink", "symlink"):
@@ -991,7 +1026,9 @@ def gen_case(ctx, form=None):
         case["prior"] = add_dangling(rng, case["prior"], target)
     if dirlink or rng.random() < 0.08:
         case["prior"] = add_dirlinks(rng, case["prior"], target)
-    if not any(v == "X" for v in case["prior"].values()) and rng.random() < 0.5:
+    if not any(v in ("X", "L") for v in case["prior"].values()) and rng.random() < 0.6:
+        case["old_index"] = rng.choice(["md5build", "md5build+save"])
+    elif not any(v == "X" for v in case["prior"].values()) and rng.random() < 0.3:
         case["old_index"] = "md5build"
     if rng.random() < 0.25:
         cs = sorted({v[0] for v in files_of(target).values()})
@@ -1163,6 +1200,8 @@ def dimensions_of(case, res, files, dirs, implicit):
     d.append("hash-name:" + case.get("hash_name", "md5"))
     d.append("old:" + ("None" if case.get("old") == "none" else case.get("old_index", "entries")))
     d.append("store:" + case.get("cls", "local"))
+    if case["form"] == "build" or any(e.get("hashed") for e in case.get("spec") or []):
+        d.append("target:directory-entries-with-dir-hash")
     if case.get("fault"):
         d.append("fault:" + case["fault"]["pos"] + ":" + case["fault"]["kind"])
     for k, te in res["model_target"]:
